@@ -470,7 +470,9 @@ namespace nmtools::index
             }();
             auto s = compute_range(shape_i,start,stop,step);
             auto step_ = compute_step(step);
-            return static_cast<size_type>(math::constexpr_ceil(static_cast<float>(s) / step_));
+            // integer ceiling division, float can not represent range > 2^24 exactly
+            using ceil_t = long long;
+            return static_cast<size_type>(((ceil_t)s > 0) ? (((ceil_t)s + (ceil_t)step_ - 1) / (ceil_t)step_) : ((ceil_t)s / (ceil_t)step_));
         };
 
         auto res = result_t {};
@@ -989,7 +991,9 @@ namespace nmtools::index
                 // finally the resulting shape for corresponding indices
                 // is simply the range divided by the step
                 // use constexpr_ceil to allow clang compile this
-                at(res,r_i++) = static_cast<size_type>(math::constexpr_ceil(static_cast<float>(s) / step));
+                // NOTE: integer ceiling division, float can not represent range > 2^24 exactly
+                using ceil_t = long long;
+                at(res,r_i++) = static_cast<size_type>(((ceil_t)s > 0) ? (((ceil_t)s + (ceil_t)step - 1) / (ceil_t)step) : ((ceil_t)s / (ceil_t)step));
             } else /* if constexpr (meta::is_index_v<slice_t>) */ {
                 // only reduce the dimension,
                 // doesn't contributes to shape computation
